@@ -1,10 +1,18 @@
+/-
+C22 library: a concrete execution of the abstract protocol (non-vacuity of the safety theorem).
+4 voters of weight 1, voter 3 Byzantine; the fork 0 ← 1 ← 2, 1 ← 3.  Voters 0 and 1 and the Byzantine voter
+prevote and precommit block 1; voter 0 finalises block 1, leaves round 0 with estimate 1 (the round is
+closable: block 1 has a supermajority of the prevotes and neither child of block 1 can get a supermajority
+of precommits any more) and prevotes block 3, a descendant of its estimate, in round 1.
+-/
 import Gossamer.Lib.C22Inv
 import Gossamer.Lib.C22Possible
 namespace Gossamer.C22
+namespace Example
 
 instance (vs : Voters) (v : Nat) : Decidable (vs.honest v) := by unfold Voters.honest; infer_instance
 
-def vs4' : Voters := ⟨[0, 1, 2, 3], fun _ => 1, fun v => v == 3⟩
+def vs : Voters := ⟨[0, 1, 2, 3], fun _ => 1, fun v => v == 3⟩
 
 /-- the fork 0 ← 1 ← 2, 1 ← 3 as an order on `Fin 4` -/
 def fork4 : BlockOrder (Fin 4) where
@@ -40,37 +48,39 @@ def t14 : State (Fin 4) := { t13 with est := upd t13.est 0 (upd (t13.est 0) (t13
                                        round := upd t13.round 0 (t13.round 0 + 1) }
 def t15 := cast t14 m7
 
-theorem r1 : Reachable vs4' fork4 t1 :=
+theorem r1 : Reachable vs fork4 t1 :=
   .step _ _ .init (Step.prevote t0 0 1 (by decide) (by decide) (by intro q hq; simp [t0, State.init] at hq))
 
-theorem r2 : Reachable vs4' fork4 t2 :=
+theorem r2 : Reachable vs fork4 t2 :=
   .step _ _ r1 (Step.prevote t1 1 1 (by decide) (by decide) (by intro q hq; simp [t1, t0, State.init, Gossamer.C22.cast] at hq))
-theorem r3 : Reachable vs4' fork4 t3 := .step _ _ r2 (Step.byzCast t2 m3 (by decide))
-theorem r4 : Reachable vs4' fork4 t4 := .step _ _ r3 (Step.deliver t3 m2 0 (by decide))
-theorem r5 : Reachable vs4' fork4 t5 := .step _ _ r4 (Step.deliver t4 m3 0 (by decide))
-theorem r6 : Reachable vs4' fork4 t6 := .step _ _ r5 (Step.deliver t5 m1 1 (by decide))
-theorem r7 : Reachable vs4' fork4 t7 := .step _ _ r6 (Step.deliver t6 m3 1 (by decide))
-theorem r8 : Reachable vs4' fork4 t8 :=
+theorem r3 : Reachable vs fork4 t3 := .step _ _ r2 (Step.byzCast t2 m3 (by decide))
+theorem r4 : Reachable vs fork4 t4 := .step _ _ r3 (Step.deliver t3 m2 0 (by decide))
+theorem r5 : Reachable vs fork4 t5 := .step _ _ r4 (Step.deliver t4 m3 0 (by decide))
+theorem r6 : Reachable vs fork4 t6 := .step _ _ r5 (Step.deliver t5 m1 1 (by decide))
+theorem r7 : Reachable vs fork4 t7 := .step _ _ r6 (Step.deliver t6 m3 1 (by decide))
+theorem r8 : Reachable vs fork4 t8 :=
   .step _ _ r7 (Step.precommit t7 0 1 (by decide) (by decide) (by decide)
     (by intro q hq; have h0 : t7.round 0 = 0 := by decide
         rw [h0] at hq; omega))
-theorem r9 : Reachable vs4' fork4 t9 :=
+theorem r9 : Reachable vs fork4 t9 :=
   .step _ _ r8 (Step.precommit t8 1 1 (by decide) (by decide) (by decide)
     (by intro q hq; have h0 : t8.round 1 = 0 := by decide
         rw [h0] at hq; omega))
-theorem r10 : Reachable vs4' fork4 t10 := .step _ _ r9 (Step.byzCast t9 m6 (by decide))
-theorem r11 : Reachable vs4' fork4 t11 := .step _ _ r10 (Step.deliver t10 m5 0 (by decide))
-theorem r12 : Reachable vs4' fork4 t12 := .step _ _ r11 (Step.deliver t11 m6 0 (by decide))
-theorem r13 : Reachable vs4' fork4 t13 := .step _ _ r12 (Step.finalise t12 0 0 1 (by decide) (by decide))
-theorem r14 : Reachable vs4' fork4 t14 :=
+theorem r10 : Reachable vs fork4 t10 := .step _ _ r9 (Step.byzCast t9 m6 (by decide))
+theorem r11 : Reachable vs fork4 t11 := .step _ _ r10 (Step.deliver t10 m5 0 (by decide))
+theorem r12 : Reachable vs fork4 t12 := .step _ _ r11 (Step.deliver t11 m6 0 (by decide))
+theorem r13 : Reachable vs fork4 t13 := .step _ _ r12 (Step.finalise t12 0 0 1 (by decide) (by decide))
+theorem r14 : Reachable vs fork4 t14 :=
   .step _ _ r13 (Step.advance t13 0 1 1 (by decide)
-    (closable_of_computed vs4' fork4 _ _ 1 1 (by decide) (by decide) (by decide)))
-theorem r15 : Reachable vs4' fork4 t15 :=
+    (closable_of_computed vs fork4 _ _ 1 1 (by decide) (by decide) (by decide)))
+theorem r15 : Reachable vs fork4 t15 :=
   .step _ _ r14 (Step.prevote t14 0 3 (by decide) (by decide)
     (by intro q hq; have h0 : t14.round 0 = 1 := by decide
         rw [h0] at hq
         have : q = 0 := by omega
         subst this
         exact ⟨1, by decide, by decide⟩))
+
+end Example
 
 end Gossamer.C22
